@@ -344,11 +344,11 @@ func c03Alphabet() []map[string]interface{} {
 	l := func(xs ...interface{}) []interface{} { return xs }
 	x1 := map[string]interface{}{"x": 1.0}
 	return []map[string]interface{}{
-		op("addGraph", "g1"), op("addGraph", "g2"), op("delGraph", "g1"), op("addGraph", "bad name"),
+		op("addGraph", "g1"), op("addGraph", "g12"), op("delGraph", "g1"), op("addGraph", "bad name"),
 		op("addV", "g1", "vs", l(c03V("a", "L", nil))),
 		op("addV", "g1", "vs", l(c03V("a", "M", x1))),
 		op("addV", "g1", "vs", l(c03V("b", "L", nil))),
-		op("addV", "g2", "vs", l(c03V("a", "L", x1))),
+		op("addV", "g12", "vs", l(c03V("a", "L", x1))),
 		op("addV", "g1", "vs", l(c03V("b", "M", nil), c03V("c", "", nil))),
 		op("addV", "g1", "vs", l(c03V("", "L", nil))),
 		op("addV", "g3", "vs", l(c03V("a", "L", nil))),
@@ -357,11 +357,11 @@ func c03Alphabet() []map[string]interface{} {
 		op("addE", "g1", "es", l(c03E("e1", "M", "a", "b", nil))),
 		op("addE", "g1", "es", l(c03E("e2", "L", "a", "a", nil))),
 		op("addE", "g1", "es", l(c03E("e2", "M", "a", "c", nil), c03E("e3", "L", "", "a", nil))),
-		op("addE", "g2", "es", l(c03E("e1", "L", "a", "b", nil))),
+		op("addE", "g12", "es", l(c03E("e1", "L", "a", "b", nil))),
 		op("bulk", "g1", "xs", l(map[string]interface{}{"v": c03V("a", "L", nil)}, map[string]interface{}{"e": c03E("e1", "L", "a", "b", nil)},
 			map[string]interface{}{"e": c03E("e9", "", "a", "b", nil)})),
 		op("bulk", "g1", "xs", l(map[string]interface{}{"v": c03V("z", "L", map[string]interface{}{"_gid": 1.0})})),
-		op("delV", "g1", "id", "a"), op("delV", "g1", "id", "b"), op("delV", "g2", "id", "a"), op("delV", "g1", "id", "zz"),
+		op("delV", "g1", "id", "a"), op("delV", "g1", "id", "b"), op("delV", "g12", "id", "a"), op("delV", "g1", "id", "zz"),
 		op("delE", "g1", "id", "e1"), op("delE", "g1", "id", "e2"), op("delE", "g1", "id", "nope"),
 	}
 }
@@ -370,7 +370,7 @@ var c03Observe = map[string]interface{}{"op": "observe", "ids": []interface{}{"a
 	"eids": []interface{}{"e1", "e2"}, "labels": []interface{}{"L", "M"}}
 
 func c03Random(r *Run, n int) []map[string]interface{} {
-	gs := []string{"g1", "g2", "g3"}
+	gs := []string{"g1", "g12", "g3"}
 	ids := []string{"a", "b", "c", "d"}
 	eids := []string{"e1", "e2", "e3"}
 	labels := []string{"L", "M", "N"}
